@@ -213,6 +213,18 @@ CLAIMED["C29"] = dict(
          "in C12; that a tabulator's row depends on its own k-point only is the k-list Fourier contract (C02, not built).",
     note=TB + "; sampling fractions t/(nk-1) are checked with dyadic nk (exact in floats); evaluate_k_path itself is not under contract")
 
+CLAIMED["C30"] = dict(
+    text="TABresult.to_grid with K__Result.to_grid (real text, real numpy, SYMBOLIC tabulated values) for every grid with 1-3 points per "
+         "direction plus 2x3x4, 4x1x3, 5x2x2, the evaluated k-points shuffled, shifted by lattice vectors, with duplicated points and an "
+         "off-grid point: the new k-list is the grid in C order (k_new[iz+g2(iy+g1 ix)] = (ix/g0,iy/g1,iz/g2), each grid point once) and the "
+         "value stored at a grid point is the mean of exactly the rows evaluated at that point. TABresult.find_grid exhaustively for all "
+         "complete grids with 1-6 points per direction. get_component for symbolic tensors of rank 0-3: every 'xyz' string (both cases), "
+         "every index tuple, 'trace', 'norm', 'sq' equal the algebraic operation; non-existing letters / wrong types raise. Per shape, for "
+         "all real values. That the values at a grid point are those 'obtained by evaluating that point alone' rests on the per-k "
+         "independence of the Fourier back ends (C02/C03, not built). Observation (not part of the property): an index string longer than "
+         "the tensor rank silently indexes the k axis instead of raising.",
+    note=TB + "; np.linalg.norm = sqrt of the sum of squares; on-grid test tolerance 1e-5 as coded")
+
 NOT_APPLICABLE = {
     "C20": "real-space symmetrisation is a data-dependent floating-point orbit search over irrep objects; its postcondition is only statable through an eigen-solver, no discrete/algebraic kernel is left once externals are abstracted (DESIGN section 7)",
     "C21": "rotation matrices are produced inside sympy (polynomial expansion + evalf); orthogonality/composition live in that CAS computation, outside any contract this engine can generate VCs for (DESIGN section 7)",
